@@ -152,6 +152,30 @@ func checkC05(p *Prog, c *Check) {
 	c.extra["bounds_obligations"] = st.obligations
 	c.extra["bounds_lifted"] = st.lifted
 	c.Floor("C05-BOUNDS.obligations", st.obligations, 60)
+	// handlers rely on what their validators established: every validator stays registered (shared with C04)
+	c04Gossip(p, c, accept)
+	// validators run concurrently
+	var vroots []*ssa.Function
+	for _, r := range roots {
+		if _, isH := byFn[r]; isH && byFn[r].handle == r {
+			continue
+		}
+		if strings.HasSuffix(shortFn(r), ".Handle") || strings.HasSuffix(shortFn(r), ".handle") {
+			continue
+		}
+		// the registration functions run once at start-up; the validators are the closures they build
+		if nm := fnName(r); nm == "addValidatorImpl" || nm == "GetCombinedValidator" {
+			vroots = append(vroots, r.AnonFuncs...)
+			continue
+		}
+		vroots = append(vroots, r)
+	}
+	c05Race(p, c, vroots, func(f *ssa.Function) bool {
+		if isGeneratedFile(p.fileOf(f)) && !strings.HasSuffix(p.fileOf(f), "_encoding.go") {
+			return true
+		}
+		return opts.stop(f)
+	})
 	// a validator or handler that returns with a mutex held stalls the node as surely as a panic stops it
 	nl := lockPairing(p, c, "C05-LOCK", opts.scope)
 	c.Floor("C05-LOCK", nl, 2)
